@@ -33,11 +33,20 @@ def run_model(ctx, name, cases, full=False):
         with open(sp, "w") as f:
             for c in sh:
                 f.write(case_line(*c) + "\n")
+        # output to files, not pipes: a full pipe would stall every shard but the one being read
+        fo = open(sp + ".out", "wb")
+        fe = open(sp + ".err", "wb")
         procs.append((sp, subprocess.Popen(["sh", "-c", "ulimit -s unlimited 2>/dev/null; exec \"$0\" \"$@\"", common.DRIVER, "decode", "full" if full else "hash", sp],
-                                           stdout=subprocess.PIPE, stderr=subprocess.PIPE, env=common.ENV)))
+                                           stdout=fo, stderr=fe, env=common.ENV), fo, fe))
     out = {}
-    for sp, pr in procs:
-        o, e = pr.communicate()
+    for sp, pr, fo, fe in procs:
+        pr.wait()
+        fo.close()
+        fe.close()
+        o = open(sp + ".out", "rb").read()
+        e = open(sp + ".err", "rb").read()
+        os.remove(sp + ".out")
+        os.remove(sp + ".err")
         if pr.returncode != 0:
             raise RuntimeError("model driver failed on %s: %s" % (sp, e.decode()[-400:]))
         for line in o.decode().split("\n"):
